@@ -57,6 +57,8 @@ pub static PARKED: AtomicU64 = AtomicU64::new(0);
 pub static NOTIFY_EPOCH: AtomicU64 = AtomicU64::new(0);
 /// Incremented on every completed unit of work (flush, compaction, ingest).
 pub static PROGRESS: AtomicU64 = AtomicU64::new(0);
+/// Incremented every time an ingest waits because level 0 is at the write-stall threshold.
+pub static INGEST_STALLS: AtomicU64 = AtomicU64::new(0);
 /// When set, blocking loops return instead of waiting (used to tear down threaded runs).
 pub static STOP: AtomicBool = AtomicBool::new(false);
 
